@@ -48,6 +48,13 @@ def run(ctx):
     ctx.guard(sentential.rule, ctx)
     from . import scope as _scope
     ctx.guard(_scope.symbols_exact, ctx, 'C05-SYMBOLS')
+    from . import c07 as _c07, lexrules as _lex
+    _g = _lex.grammar_of(ctx.repo, 'bridgepoint.oal:OALParser')
+    ctx.shared(_c07.lists, ctx, _g)            # list nodes keep the source order the generated text is compared against
+    ctx.shared(_lex.lineno_rule, ctx, 'C05-LINENO', 'bridgepoint.oal:OALParser', floor=30)
+    _r = ctx.rule('C05-GLOBAL', 'is_global: visible-everywhere elements are those outside every component, through all enclosing packages', floor=8,
+                  oracle='R8000 / R8003 of ooaofooa')
+    ctx.guard(_scope.globality, _r, ctx.repo)
     ctx.assume('name resolution (o_obj, s_sync, r_rel ... look-ups) succeeds: programs are well-formed and name-resolved')
     return ('Exhaustiveness of prebuild handlers against the grammar and of text generators against the kinds prebuild creates; '
             'schema type-check of every navigation in sourcegen.py; direction agreement of writer and reader on the three '
